@@ -545,6 +545,9 @@ def judge_rel(d, o):
             ref = RI.maxmin_groups(groups, lambda yy, ww: J.expectile(yy, ww, a))
         else:
             ref = None
+        sv = sorted(set(col))
+        if fn == "mean" and any(q - p <= 1e-9 * max(1.0, abs(p), abs(q)) for p, q in zip(sv, sv[1:])):
+            ref = None                 # numerically tied forecasts (scikit-learn pools them): not judged
         if ref is not None and any(not close(rv, fv) for rv, fv in zip(ref, fitted)):
             bad.append(f"curve {ci} is not the isotonic fit of the observations on column {ci}"
                        + (" (prediction minus fit)" if sgn_bias else ""))
@@ -688,7 +691,10 @@ def gen_preds(rng, n, k, y):
         if r < 0.1:
             cols.append(list(y))                                   # perfect model
         elif r < 0.2:
-            cols.append([v + rng.choice([-1.0, 0.5, 2.0]) for v in y])
+            # rounded: -0.1 + 0.5 and -1.6 + 2.0 differ by one ulp, and scikit-learn (mean functional) pools X values
+            # closer than 1e-15 - numerically tied forecasts are outside what is judged (DESIGN section 10, tolerances)
+            sh = rng.choice([-1.0, 0.5, 2.0])
+            cols.append([round(v + sh, 9) for v in y])
         else:
             cols.append(RI.gen_X(rng, n, rng.choice(RI.X_STYLES)))
     return cols
